@@ -25,6 +25,13 @@ POSITIONS = [
     ('with', 'with cm(1):\n{B1}', False),
     ('match-case', 'match 1:\n case 1:\n{B2}', False),
     ('def-in-if', 'if flag:\n def f():\n{B2}\n obs(f())', True),
+    # blocks that end a function: a trailing `return` here is NOT the function's last statement
+    ('def-finally', 'def f():\n try:\n  raise KeyError(1)\n finally:\n{B2}\ntry:\n obs(f())\nexcept KeyError:\n obs(6)', True),
+    ('def-try-else', 'def f():\n try:\n  obs(8)\n except KeyError:\n  obs(7)\n else:\n{B2}\nobs(f())', True),
+    ('def-if-last', 'def f():\n if flag:\n{B2}\nobs(f())', True),
+    ('def-with-last', 'def f():\n with cm(1):\n{B2}\nobs(f())', True),
+    ('def-except-last', 'def f():\n try:\n  raise KeyError(1)\n except KeyError:\n{B2}\nobs(f())', True),
+    ('def-for-else-last', 'def f():\n for i_ in (1,):\n  obs(i_)\n else:\n{B2}\nobs(f())', True),
     # scopes in which `object` is a parameter / local of some kind (the base-class rewrite must leave them alone)
     ('def-object-kwonly', 'def f(*,object=Exception):\n{B1}\nobs(f())', True),
     ('def-object-posonly', 'def f(object=Exception,/):\n{B1}\nobs(f())', True),
@@ -99,10 +106,12 @@ def programs(tier):
         usable = [n for n in names if infn or not STMT_D[n][1]]
         if 'object' in pos[0]:
             usable = [n for n in usable if n.startswith('class-') or n in ('pass', 'real')]
+        if pos[0].startswith('def-') and pos[0].endswith(('-last', 'finally', 'try-else')):
+            usable = [n for n in usable if n.startswith('return') or n in ('pass', 'real', 'lit-str', 'raise')]
         for n in usable:
             yield 'stmt:%s:%s' % (pos[0], n), build(pos, [n])
         for a, b in itertools.product(usable, repeat=2):
-            if tier == 'quick' and pos[0] not in ('module', 'def', 'class', 'method', 'if', 'except', 'for-else', 'match-case'):
+            if tier == 'quick' and pos[0] not in ('module', 'def', 'class', 'method', 'if', 'except', 'for-else', 'match-case') and not pos[0].startswith('def-'):
                 # quick: full pair table in 8 positions, first-statement-only elsewhere
                 continue
             yield 'stmt:%s:%s+%s' % (pos[0], a, b), build(pos, [a, b])
